@@ -34,3 +34,8 @@ pub(crate) fn stub_load_chunk_ids<T: Types>(_config: &Config) -> Result<Vec<Chun
 pub(crate) fn removed_chunks_len<T: Types>(rl: &RaftLog<T>) -> usize {
     rl.removed_chunks.len()
 }
+
+/// ghost slot named by the i-th path scheduled for removal
+pub(crate) fn removed_chunk_slot<T: Types>(rl: &RaftLog<T>, i: usize) -> usize {
+    gfs::slot_of_path(rl.removed_chunks[i].as_bytes())
+}
